@@ -22,9 +22,10 @@ META = {
         "a partition of request shapes, accepts exactly: version marker present, non-empty string method, params "
         "absent or list/dict/tuple; C05.8 (shared with C06.1 / C06.2 / C06.4) the client surfaces every error reply as a ProtocolError "
         "carrying the code: check_for_errors raises ProtocolError((code, message)) for an error object, every consumer of a reply "
-        "checks it first, and _run_request returns None only for an empty reply body (an error answered to a notification is parsed too).; C05.9 (shared) the error envelope carries the error object in both protocol versions (imported C14.1), and a request with an id - 0 and 0.0 included - is not treated as a notification, so its failure is answered (imported C04.3) C05.10 (imported from C13.2) the per-request copy of the configuration (made for 1.0 requests on a 2.0 server) carries every field of the server's Config: the error reply of such a request is built from that copy, so a field the copy drops falls back to its default for exactly those requests."),
+        "checks it first, and _run_request returns None only for an empty reply body (an error answered to a notification is parsed too).; C05.9 (shared) the error envelope carries the error object in both protocol versions (imported C14.1), and a request with an id - 0 and 0.0 included - is not treated as a notification, so its failure is answered (imported C04.3) C05.10 (imported from C13.2) the per-request copy of the configuration (made for 1.0 requests on a 2.0 server) carries every field of the server's Config: the error reply of such a request is built from that copy, so a field the copy drops falls back to its default for exactly those requests. C05.11 (imported from C02.6 / C17.3) the error reply reaches the client as the ProtocolError it encodes: the backend emits ASCII only and decodes with json.loads itself, and both sides decode the joined bytes once (an error message echoing multi-byte text survives any chunking)."),
     "does_not_decide": "which texts the JSON backend rejects; exact message texts.",
-    "rules": {"C05.10": "imported C13.2 (Config.copy carries every field)",
+    "rules": {"C05.11": "imported C02.6 (backend options, loader), C17.3 (raw accumulation, one decode)",
+              "C05.10": "imported C13.2 (Config.copy carries every field)",
               "C05.9": "imported C14.1, C04.3", 
         "C05.1": "site classification by handler / dominating branch; literal folding vs spec table A.1",
         "C05.2": "CFG reachability and dominance", "C05.3": "who-may-call on getattr with provenance of the receiver",
@@ -420,6 +421,15 @@ def check(ck):
                            "answered -32603 instead of -32602" % ", ".join(sorted(set([helper.qual for (_n, _c, helper, _h) in invs if helper is not None] +
                                                                                        [x for x in via_helper if isinstance(x, str)]))),
                            q.loc(fd, h))
+                # even with the call in _dispatch's own frame, the depth of the traceback does not tell a mismatch from an error of
+                # the method: a registered callable that forwards its arguments (a functools.wraps decorator, a bound partial)
+                # raises the mismatch one frame down as well
+                by_tb = [x for st_ in h.body for x in ast.walk(st_) if isinstance(x, ast.Attribute) and x.attr in ("tb_next", "tb_frame", "__traceback__")] + \
+                        [x for st_ in h.body for x in ast.walk(st_) if isinstance(x, ast.Call) and dump(x.func) in ("sys.exc_info", "traceback.extract_tb", "inspect.trace")]
+                ck.require(not by_tb, "C05.7", "%s: -32602 handler re-raises depending on the traceback" % q.fn(fd), "mismatch decided before the call",
+                           "the TypeError handler answers -32602 only when the traceback has a single frame (`%s`): an argument mismatch of a "
+                           "callable that forwards its arguments (decorated function, wrapper) is raised one frame deeper and answered -32603"
+                           % (dump(by_tb[0])[:40] if by_tb else ""), q.loc(fd, h))
             else:
                 ck.ok("C05.7", "%s: the -32602 handler answers every TypeError of the call" % q.fn(fd), "no selective re-raise", q.loc(fd, h))
 
@@ -493,3 +503,9 @@ def check(ck):
     from rules import c13 as _c13c
     _common.import_rules(ck, _c13c, {"C13.2": "C05.10"})
     ck.floor("C05.10", 5)
+
+    # ---- C05.11 transport of the error reply (shared with C02.6 / C17.3) -------------------------------------------------------
+    from rules import c02 as _c02t5, c17 as _c17t5
+    _common.import_rules(ck, _c02t5, {"C02.6": "C05.11"})
+    _common.import_rules(ck, _c17t5, {"C17.3": "C05.11"})
+    ck.floor("C05.11", 6)
